@@ -33,7 +33,7 @@ from ..mutate import mutate, remove_stmts, replace_expr, replace_stmt, parse_stm
 from ..rules import tainted_names, mentions
 from ..rx import Rx, module_pattern
 from ..x_secflow import (Reach, Escapes, is_unpack, strip_wrappers, same, parsed_facts, fact_geq0, equality_fact,
-                         tests_reaching, names_of, edge_dominates, absent_or_unknown, own_nodes)
+                         tests_reaching, names_of, edge_dominates, absent_or_unknown, own_nodes, concat_canon, positional_call)
 
 TECHNIQUE = "must-pass-through (guard dominance) on the CFG with reaching-definition expansion, exception-escape analysis against a frozen raise model, encoder/decoder role tables, regex language inclusion"
 EXPLANATION = (
@@ -124,7 +124,22 @@ def elem(e):
 
 class CReach(Reach):
     def expand(self, expr, at, depth=16, _stack=()):
-        return canon_elems(Reach.expand(self, expr, at, depth, _stack))
+        return self._positional(canon_elems(Reach.expand(self, expr, at, depth, _stack)))
+
+    def _positional(self, e):
+        """Calls of this module's own functions with keyword arguments rewritten positionally (by the callee's signature)."""
+        funcs = self.fi.module.funcs
+        if not any(isinstance(x, ast.Call) and x.keywords and isinstance(x.func, ast.Name) and x.func.id in funcs for x in ast.walk(e)):
+            return e
+
+        class T(ast.NodeTransformer):
+            def visit_Call(self_, node):
+                self_.generic_visit(node)
+                if node.keywords and isinstance(node.func, ast.Name) and node.func.id in funcs:
+                    return positional_call(node, funcs[node.func.id].params())
+                return node
+
+        return T().visit(e)
 
 
 class Ctx:
@@ -151,6 +166,13 @@ class Ctx:
                 e = d.value
                 while isinstance(e, ast.UnaryOp) and isinstance(e.op, ast.Not):
                     e, pol = e.operand, not pol
+            if isinstance(e, ast.Compare) and len(e.ops) > 1 and pol:
+                # a chained comparison known true gives each link
+                left = e.left
+                for op, right in zip(e.ops, e.comparators):
+                    out.append((ast.Compare(left=left, ops=[op], comparators=[right]), True, text))
+                    left = right
+                continue
             if isinstance(e, ast.BoolOp):
                 # a conjunction known true / a disjunction known false gives each operand
                 if (isinstance(e.op, ast.And) and pol) or (isinstance(e.op, ast.Or) and not pol):
@@ -695,7 +717,13 @@ def classify_enc_elt(enc, e):
         return ("const", e.value, False)
     if is_signer_call(e):
         return ("sig", e, False)
-    if isinstance(e, ast.Call) and isinstance(e.func, ast.Name) and formatter_func(enc, e.func.id) is not None and len(e.args) == 1 and not e.keywords:
+    if isinstance(e, ast.Call) and isinstance(e.func, ast.Lambda) and len(e.args) == 1 and not e.keywords and len(e.func.args.args) == 1 and not (e.func.args.vararg or e.func.args.kwarg or e.func.args.kwonlyargs):
+        # a formatter written as a lambda bound to a local (the expansion put the lambda in call position)
+        if formatter_shape_ok(e.func.args.args[0].arg, e.func.body) is not True:
+            raise AnalysisError("create_signed_value: field formatter lambda in a shape the rule does not understand")
+        formatted = "<lambda>"
+        e = e.args[0]
+    elif isinstance(e, ast.Call) and isinstance(e.func, ast.Name) and formatter_func(enc, e.func.id) is not None and len(e.args) == 1 and not e.keywords:
         formatted = e.func.id
         e = e.args[0]
     s = strip_wrappers(e)
@@ -711,6 +739,33 @@ def classify_enc_elt(enc, e):
 
 
 _NESTED = {}
+
+
+def formatter_shape_ok(p0, value):
+    """``value`` writes '<len(p0)>:' followed by p0 (concatenation, %-format or f-string)."""
+    has_len = any(isinstance(y, ast.Call) and isinstance(y.func, ast.Name) and y.func.id == "len" and len(y.args) == 1 and isinstance(y.args[0], ast.Name) and y.args[0].id == p0 for y in ast.walk(value))
+    has_fmt = any(isinstance(y, ast.Constant) and y.value in ("%d:", b"%d:") for y in ast.walk(value))
+    def is_len(x):
+        if isinstance(x, ast.Tuple) and len(x.elts) == 1:
+            x = x.elts[0]
+        return isinstance(x, ast.Call) and isinstance(x.func, ast.Name) and x.func.id == "len" and len(x.args) == 1 and isinstance(strip_wrappers(x.args[0]), ast.Name) and strip_wrappers(x.args[0]).id == p0
+
+    okf = False
+    if isinstance(value, ast.BinOp) and isinstance(value.op, ast.Add) and isinstance(strip_wrappers(value.right), ast.Name) and strip_wrappers(value.right).id == p0:
+        pre = strip_wrappers(value.left)
+        okf = isinstance(pre, ast.BinOp) and isinstance(pre.op, ast.Mod) and isinstance(pre.left, ast.Constant) and pre.left.value in ("%d:", b"%d:") and is_len(pre.right)
+        if not okf and isinstance(pre, ast.BinOp) and isinstance(pre.op, ast.Mod) and isinstance(pre.left, ast.Constant) and pre.left.value in ("%d:", b"%d:"):
+            r_ = pre.right.elts[0] if isinstance(pre.right, ast.Tuple) and len(pre.right.elts) == 1 else pre.right
+            if isinstance(r_, ast.BinOp) and isinstance(r_.op, (ast.Add, ast.Sub, ast.Mult)) and (is_len(r_.left) or is_len(r_.right)) and (isinstance(r_.left, ast.Constant) or isinstance(r_.right, ast.Constant)):
+                return "bad-length"  # understood: the prefix is an arithmetic variation of the field's length
+    v_ = strip_wrappers(value)
+    if not okf and isinstance(v_, ast.BinOp) and isinstance(v_.op, ast.Mod) and isinstance(v_.left, ast.Constant) and v_.left.value in ("%d:%s", b"%d:%s", b"%d:%b") and isinstance(v_.right, ast.Tuple) and len(v_.right.elts) == 2:
+        l_, d_ = v_.right.elts
+        okf = is_len(l_) and isinstance(strip_wrappers(d_), ast.Name) and strip_wrappers(d_).id == p0
+    if not okf and isinstance(v_, ast.JoinedStr) and len(v_.values) == 3 and isinstance(v_.values[1], ast.Constant) and v_.values[1].value == ":" and all(isinstance(v_.values[k], ast.FormattedValue) for k in (0, 2)):
+        l_, d_ = v_.values[0].value, v_.values[2].value
+        okf = isinstance(l_, ast.Call) and isinstance(l_.func, ast.Name) and l_.func.id == "len" and len(l_.args) == 1 and isinstance(l_.args[0], ast.Name) and l_.args[0].id == p0 and isinstance(d_, ast.Name) and d_.id == p0
+    return bool(okf)
 
 
 def formatter_func(enc, name):
@@ -792,7 +847,7 @@ def encoder_tables(ck, enc):
                         ver = b.value
         if ver is None:
             raise AnalysisError("create_signed_value: a value is returned outside a 'version == K' branch")
-        E = cx.rd.expand(r.ast.value, r)
+        E = concat_canon(cx.rd.expand(r.ast.value, r))
         if is_join(E):
             elts = [classify_enc_elt(enc, x) for x in flatten_elts(E.args[0])]
             sig = [x for x in elts if x[0] == "sig"]
@@ -1037,26 +1092,18 @@ def check_consumer(ck, cons, enc, tabs):
     names = sorted({f for t in tabs.values() for f in t.get("formatted", []) if f})
     ck.need(len(names) >= 1, "create_signed_value: the length-prefixed fields are not written through a helper the rule recognises")
     for nm in names:
+        if nm == "<lambda>":
+            continue  # shape verified where it was met
         fi = formatter_func(enc, nm)
         f = fi.node
         ps = [a.arg for a in f.args.args]
         okf = False
         for x in own_nodes(f):
             if isinstance(x, ast.Return) and x.value is not None:
-                has_len = any(isinstance(y, ast.Call) and isinstance(y.func, ast.Name) and y.func.id == "len" and len(y.args) == 1 and isinstance(y.args[0], ast.Name) and y.args[0].id == ps[0] for y in ast.walk(x.value))
-                has_fmt = any(isinstance(y, ast.Constant) and y.value in ("%d:", b"%d:") for y in ast.walk(x.value))
-                okf = has_len and has_fmt and isinstance(x.value, ast.BinOp) and isinstance(x.value.op, ast.Add) and isinstance(strip_wrappers(x.value.right), ast.Name) and strip_wrappers(x.value.right).id == ps[0]
-                v_ = strip_wrappers(x.value)
-                if not okf and isinstance(v_, ast.BinOp) and isinstance(v_.op, ast.Mod) and isinstance(v_.left, ast.Constant) and v_.left.value in ("%d:%s", b"%d:%s", b"%d:%b") and isinstance(v_.right, ast.Tuple) and len(v_.right.elts) == 2:
-                    l_, d_ = v_.right.elts
-                    okf = isinstance(l_, ast.Call) and isinstance(l_.func, ast.Name) and l_.func.id == "len" and len(l_.args) == 1 and isinstance(strip_wrappers(l_.args[0]), ast.Name) and strip_wrappers(l_.args[0]).id == ps[0] \
-                        and isinstance(strip_wrappers(d_), ast.Name) and strip_wrappers(d_).id == ps[0]
-                if not okf and isinstance(v_, ast.JoinedStr) and len(v_.values) == 3 and isinstance(v_.values[1], ast.Constant) and v_.values[1].value == ":" and all(isinstance(v_.values[k], ast.FormattedValue) for k in (0, 2)):
-                    l_, d_ = v_.values[0].value, v_.values[2].value
-                    okf = isinstance(l_, ast.Call) and isinstance(l_.func, ast.Name) and l_.func.id == "len" and len(l_.args) == 1 and isinstance(l_.args[0], ast.Name) and l_.args[0].id == ps[0] and isinstance(d_, ast.Name) and d_.id == ps[0]
+                okf = formatter_shape_ok(ps[0], x.value)
         if not okf:
             raise AnalysisError("%s: field formatter in a shape the rule does not understand" % fi.qualname)
-        ck.ob("C23.fields-agree", ck.use(fi), f, okf, "the field formatter writes '<len(s)>:' followed by s", construct="length prefix")
+        ck.ob("C23.fields-agree", ck.use(fi), f, okf is True, "the field formatter writes '<len(s)>:' followed by s (the prefix is exactly the field's length)", construct="length prefix")
 
 
 # ---------------------------------------------------------------------------
@@ -1581,6 +1628,7 @@ MUTANTS = [
     ("v1: parts taken from split(...)[:3] with the length test kept on the slice", _in("_decode_signed_value_v1", replace_expr(lambda n: isinstance(n, ast.Call) and q.call_attr(n) == "split", lambda n: ast.Subscript(value=n, slice=ast.Slice(upper=ast.Constant(value=3)), ctx=ast.Load()))), "C23.fields-agree"),
     ("v2 decoder refuses names longer than 64 bytes", _in("_decode_signed_value_v2", replace_expr(lambda n: isinstance(n, ast.Compare) and "name_field" in ast.unparse(n), lambda n: parse_expr("name_field != utf8(name) or len(name_field) > 64"))), "C23.fields-agree"),
     ("seeded C23-adv4: raw digests compared (hex case of the signature ignored)", _in("_decode_signed_value_v2", replace_expr(lambda n: isinstance(n, ast.Call) and q.call_attr(n) == "compare_digest", lambda n: ast.Call(func=n.func, args=[ast.Call(func=parse_expr("binascii.unhexlify"), args=[a], keywords=[]) for a in n.args], keywords=[]))), "C23.mac-gate"),
+    ("encoder's length prefix off by one", _in("create_signed_value", replace_expr(lambda n: isinstance(n, ast.Call) and isinstance(n.func, ast.Name) and n.func.id == "len" and ast.unparse(n) == "len(s)", lambda n: parse_expr("len(s) + 1"))), "C23.fields-agree"),
     ("dispatch: v1 decoder called for version 2 values too", _in("decode_signed_value", replace_expr(lambda n: isinstance(n, ast.Compare) and ast.unparse(n) == "version == 1", lambda n: parse_expr("version <= 2"))), "C23.dispatch"),
 ]
 
